@@ -14,7 +14,7 @@ ENUMS = [{'a': 1, 'b': 2}, {'off': 0, 'on': 1}, {'x': -3, 'y': 100, 'z': 7}, {'s
          {'idle': 100, 'busy': 300, 'error': 400},
          # labels that look like numbers (gain / range selectors) and are the code of ANOTHER member
          {'1': 0, '2': 1, '4': 2, '8': 3}, {'10': 1, '1': 10, 'x': 2}]
-UNITS = ['', 'K', 'mbar/s', '$', '$/min', 'µm']
+UNITS = ['', 'K', 'mbar/s', '$', '$/min', 'µm', 'm2', 'cm-1', '1/s', 'W/m2', 'e.']      # also units that end like a number
 ASCII_ALPHA = 'ab"\\\n\t xyz\'[](),{}:0159-.#'
 UTF_ALPHA = ASCII_ALPHA + 'äπ€𝄞é'
 MEMBER_NAMES = ['a', 'b', 'c', 'd', 'value', 'x_1']
